@@ -71,9 +71,17 @@ theorem InstrWriteMetadata.marshalM_noErr (v : V) : NoErr (InstrWriteMetadata.ma
 theorem InstrMeter.marshalM_noErr (v : V) : NoErr (InstrMeter.marshalM v) := by
   unfold InstrMeter.marshalM; noerr
 
+theorem InstrActions.lenM_noErr (v : V) : NoErr (InstrActions.lenM v) := by
+  unfold InstrActions.lenM
+  split
+  · apply NoErr.bind (mapM2_noErr _ Action.lenM_noErr _); intro _; exact noErr_ok _
+  · exact noErr_panic
+
 /-- InstrActions.MarshalBinary returns the LAST action's error; no action has one -/
 theorem InstrActions.marshalM_noErr (v : V) : NoErr (InstrActions.marshalM v) := by
   unfold InstrActions.marshalM
+  apply NoErr.bind (InstrActions.lenM_noErr _); intro ⟨l, v'⟩
+  simp only
   split
   · apply NoErr.bind (InstrHeader.bytes_noErr _); intro _
     apply NoErr.bind' (marshalList_noErr _ Action.marshalM_noErr _ _)
